@@ -81,7 +81,7 @@ REJECTED = {
  'C19-h1': 'not a violation under the joint reading of C05 and C19: the change makes the legacy front-end turn a validator that is still running at the Interest deadline into InterestTimeout (with a 100 ms floor) - which is what C05 demands (it repairs the known finding KF-legacy-slow-validator); segment_fetcher then re-requests the segment as for any timeout. C19\'s and C05\'s checks pass on it (C05 without the KNOWN-FINDING line).',
 }
 rows = []
-for d in sorted(glob.glob(ROOT + '/C*-[mnkjhgfed]*')):
+for d in sorted(glob.glob(ROOT + '/C*-[mnkjhgfedc]*')):
     sid = os.path.basename(d)
     prop = sid.split('-')[0]
     notes = open(os.path.join(d, 'notes.md')).read() if os.path.exists(os.path.join(d, 'notes.md')) else ''
